@@ -300,10 +300,12 @@ def check_registry(rep, prog, runs):
 ONE_SHOT_OPS = ("call:filter", "call:map", "zip", "enumerate", "reversed", "call:iter", "file", "call:os.scandir", "call:os.walk")
 
 
-def one_shot(t):
+def one_shot(t, I=None):
     from ..interp import GenV
     if isinstance(t, GenV):
         return "generator object"
+    if I is not None and isinstance(t, Ref) and getattr(I.heap.get(t.oid), "comp", None) == "gen":
+        return "generator expression / filter() / map() object"
     if isinstance(t, Op) and (t.op in ONE_SHOT_OPS or t.op.startswith("call:itertools.")):
         return t.op.replace("call:", "") + "(...)"
     return None
@@ -337,7 +339,7 @@ def check_one_shot_iterators(rep, prog, runs):
                         alts.append(t)
                 lv(v)
                 for a in alts:
-                    kind = one_shot(a)
+                    kind = one_shot(a, I)
                     key = (getattr(o, "shared", None), what, kind)
                     if key in seen:
                         continue
